@@ -305,6 +305,21 @@ def binarySearch (arr : Array Bytes) (key : Bytes) : Option Nat :=
       else none
   go (arr.size + 1) 0 arr.size
 
+/-- `Path::with_extension(ext)` on the final component: the stem (name up to the last dot, the
+whole name if there is no dot or only a leading one) followed by `.ext` -/
+def withExtension (path ext : Bytes) : Bytes :=
+  let base := baseName path
+  let dir := path.take (path.length - base.length)
+  let stem := match nameAndExt base with
+    | some (n, _) => n
+    | none => base
+  dir ++ stem ++ [46] ++ ext
+
+/-- `add_sass_file(src)` after rsass produced `css` (rsass itself is opaque): the CSS is added with
+`add_file_data(src.with_extension("css"), &css)` -/
+def Statics.addSassResult (s : Statics) (src css : Bytes) : Statics :=
+  s.addHashed uniEsc uniAlnum (withExtension src (str "css")) css (.data css)
+
 /-- Sass `static_name(f)`: look the mangled file name up in `get_names()` (after the repair the
 lookup mangles exactly as `add_static` does) -/
 def staticName (names : List (Bytes × Bytes)) (f : Bytes) : Option Bytes := btGet (mangle uniAlnum f) names
